@@ -617,12 +617,21 @@ func TestC12(t *testing.T) {
 				{"hist -buckets", "hist", sp.text},
 				{"json -buckets", "json", sp.text},
 			}
-			inputs := [][]time.Duration{all}
+			// result files are in completion order, not in latency order: also the descending file
+			// (a zero latency after non-zero ones) and both orders of every pair
+			rev := make([]time.Duration, len(all))
+			for i, v := range all {
+				rev[len(all)-1-i] = v
+			}
+			inputs := [][]time.Duration{all, rev}
 			if si == 0 && len(given) <= fullPairsReport {
 				for i, a := range pvals {
 					inputs = append(inputs, []time.Duration{a})
 					for _, b := range pvals[i:] {
 						inputs = append(inputs, []time.Duration{a, b})
+						if a != b {
+							inputs = append(inputs, []time.Duration{b, a})
+						}
 					}
 				}
 			} else if si == 0 {
